@@ -135,14 +135,15 @@ Definition contract (M : mappings) (name : str) : res mappings :=
    For a class that has a name b in ns (and a source name src):
    b is not empty; if src is nested, b contains neither `$` nor `/`; if src is top-level,
    b is not splittable as an inner class name and does not end with `/`. *)
+Definition name_cond (src b : str) : bool :=
+  negb (is_nil b) &&
+  match split_inner src with
+  | Some _ => negb (mem_N cDOLLAR b) && negb (mem_N cSLASH b)
+  | None => negb (is_some (split_inner b)) && negb (ends_with_char cSLASH b)
+  end.
 Definition simple_row (ns : nat) (l : names) : bool :=
   match nth_name l ns, first_name l with
-  | Some b, Some src =>
-      negb (is_nil b) &&
-      match split_inner src with
-      | Some _ => negb (mem_N cDOLLAR b) && negb (mem_N cSLASH b)
-      | None => negb (is_some (split_inner b)) && negb (ends_with_char cSLASH b)
-      end
+  | Some b, Some src => name_cond src b
   | _, _ => true
   end.
 Definition simple_names (M : mappings) (ns : nat) : bool :=
